@@ -346,10 +346,16 @@ func VerifC11StreamAgg(v *vrt.T) {
 	maxN := [2]int{v.Bound("points1", 1), v.Bound("points", 3)} // sizes of the first / second run
 	dims := models.Dimensions{TagNames: []string{"host"}}
 	mk := func(t int64, val interface{}, i int) edge.PointMessage {
+		tm := time.Unix(0, t).UTC()
+		// the same instant may arrive in another representation (the local zone instead of
+		// UTC, e.g. from a UDF or a replay): it is still the same time
+		if i == 1 && v.Choose("second point of the run in the local zone", 2) == 1 {
+			tm = tm.Local()
+		}
 		return edge.NewPointMessage("m", "db", "rp", dims,
 			models.Fields{verifAggField: val, "g": int64(i)},
 			models.Tags{"host": "a", "x": "p"},
-			time.Unix(0, t).UTC())
+			tm)
 	}
 	var g edge.ForwardReceiver
 	var prev *verifAggBatch // the run whose result is due
